@@ -247,7 +247,10 @@ CLAIMED["C10"] = dict(
     text="Proof over Lib/Sched.v (one solved step iterated): more fuel never changes a finished run; pausing at ANY duration D1 and "
          "continuing from the state kept in the model gives exactly the uninterrupted trace (induction; several pauses by iteration); a "
          "new simulator object recomputes its rule index from the last solved time, and the continued run equals the uninterrupted one "
-         "whenever that index equals the paused one (partial: this loop invariant is checked on every case, not proved); with the index "
+         "whenever that index equals the paused one; that loop invariant ((ri-1)*rule_step <= prev < ri*rule_step after every solved step) is "
+         "PROVED through the whole presolve loop for every configuration whose simple controls are sim-time conditions without repeat and any "
+         "rules (sorted backtracks, three branches), giving restart equivalence without side condition there; for clock / repeating conditions "
+         "(whose backtracks are wrong in the code, C04 findings) it stays a per-case check; with the index "
          "restarted at 0 (the behaviour before the fix) the model provably steps back to t = 0. Ties decided inside coqc: for generated "
          "time-driven configurations the concatenated (time, status) trace of real runs paused at 1-3 grid points, with/without pickle, "
          "continued with NEW simulator objects equals the model's uninterrupted trace, and the invariant holds at every pause. Property "
